@@ -333,6 +333,14 @@ class Gen:
     def m(self):
         self.msg += 1; return self.msg
 
+    def pick_handles(self):
+        """mostly handles that hold a sink (so that statements are written somewhere), sometimes empty / unset / repeated ones"""
+        r = self.r
+        pool = sorted(self.hset) if (self.hset and r.random() < 0.85) else list(range(self.nh))
+        k = r.choice([0, 1, 1, 1, 2, 2, 3])
+        hs = [r.choice(pool) for _ in range(k)] if r.random() < 0.1 else r.sample(pool, min(k, len(pool)))
+        return tuple(hs)
+
     def simple(self, allow_rb=True):
         """one simple op (or None)"""
         r = self.r; x = r.random()
@@ -346,7 +354,7 @@ class Gen:
             cands = [n for n in names if self.state.get(n) in (None, 'valid')]
             if not cands: return None
             n = r.choice(cands)
-            hs = tuple(r.sample(range(self.nh), r.randint(0, min(3, self.nh))))
+            hs = self.pick_handles()
             self.state[n] = 'valid'
             return ('create', n, n, hs)
         if x < 0.34:
@@ -381,7 +389,7 @@ class Gen:
             rbs = [(n, s[1]) for n, s in self.state.items() if isinstance(s, tuple)]
             if rbs:
                 n, t = r.choice(rbs)
-                hs = tuple(r.sample(range(self.nh), r.randint(0, min(3, self.nh))))
+                hs = self.pick_handles()
                 ops = [('create', n, n, hs)] + [('log', t, n, self.m()) for _ in range(r.randint(0, 2))]
                 self.body.append(('wait', t)); self.body.append(('iffree', t, ops)); return
         o = self.simple()
@@ -546,6 +554,32 @@ def coverage(cases, impl):
     return h, b
 
 
+def mt_runs(ck, tier):
+    """real threads + the real backend thread (harness/lg_mt.cpp): every thread cycles create / look up / log / remove_logger_blocking /
+    check-on-return; plain, ThreadSanitizer and AddressSanitizer builds. Returns (failure text or None, info)"""
+    confs = ((2, 400, 10), (4, 300, 20), (8, 150, 5))
+    flags = {'plain': [], 'tsan': ['-fsanitize=thread'], 'asan': ['-fsanitize=address,undefined']}
+    info = {}
+    for kind in ('plain', 'tsan', 'asan'):
+        exe, err = ck.build_harness('lg_mt_' + kind, ['lg_mt.cpp'], flags=flags[kind], san=False)
+        if not exe:
+            return 'lg_mt.cpp (%s) does not compile against /repo: %s' % (kind, err[-300:]), None
+        runs = []
+        for T, R, M in confs:
+            env = dict(os.environ, TSAN_OPTIONS='halt_on_error=1:exitcode=66', ASAN_OPTIONS='detect_leaks=0:exitcode=99')
+            rc, so, se = sh([exe, str(T), str(R), str(M)], timeout=300, env=env)
+            runs.append((T, R, M, rc, so.strip()[:80]))
+            if rc != 0 or not so.startswith('OK'):
+                m = re.search(r'(WARNING: ThreadSanitizer: [^\n]+|ERROR: AddressSanitizer: [^\n]+|runtime error: [^\n]+)', se or '')
+                loc = re.findall(r'#\d+ [^\n]*(?:LoggerManager|SinkManager|BackendWorker|Spinlock|FrontendImpl)[^\n]*', se or '')[:3]
+                return ('real-thread run (%s) threads=%d rounds=%d statements=%d: rc=%s %s %s %s'
+                        % (kind, T, R, M, rc, so.strip()[:160] or ('no answer within the time limit' if rc == 'TIMEOUT' else ''),
+                           m.group(1) if m else (se or '')[-200:], ' | '.join(x.strip() for x in loc))), \
+                       {'harness': 'harness/lg_mt.cpp', 'build': kind, 'args': [T, R, M]}
+        info[kind] = runs
+    return None, info
+
+
 def run(tier):
     ck = Check(PID, tier)
     broken = standard_proof_phase(ck, 'Properties_C17')
@@ -584,6 +618,13 @@ def run(tier):
         return monitor(case, impl_line)
     dis, monf = correspond(ck, 'M-REG vs Frontend/LoggerManager/SinkManager/ManualBackendWorker', cases, ml, il, monitor=mon, shrink=shrink,
                            known_match=known_match_for(ck))
+    tinfo = 'thorough tier only'
+    if tier != 'quick':
+        tmsg, tinfo = mt_runs(ck, tier)
+        if tmsg:
+            ck.violation('impl-failing-input', 'real threads over Frontend / LoggerManager / SinkManager with the real backend thread (checks at the return of remove_logger_blocking; sanitizers): ' + tmsg,
+                         case=tinfo, expected='OK: every statement written before remove_logger_blocking returns, unshared sink destroyed, shared sink alive, name free; no data race; no use after free', observed=tmsg)
+            tinfo = tmsg
     if broken and not ck.violations:
         for key, what, cfgname, trace, thm in WITNESS:
             v = facts.get(key)
@@ -603,14 +644,22 @@ def run(tier):
                      evaluations=len(cases), distinct_nontrivial=nt_, traces=len(cases) - len(dis) - len(monf),
                      extra_cov={'disagreements': len(dis), 'monitor_failures': len(monf), 'corpus_cases': len(corpus()), 'scenario_cases': len(first) - len(corpus()),
                                 'op_histogram': hist, 'boundaries_hit': bnd, 'model_variant_flags(guard_q,guard_tb,recheck,flag_late,prune,get_valid)': list(fl),
-                                'implementation_crash_or_hang': sum(1 for l in il if l.startswith(('CRASH', 'HANG')))})
+                                'implementation_crash_or_hang': sum(1 for l in il if l.startswith(('CRASH', 'HANG'))), 'real_thread_runs': tinfo})
 
 
 def replay(path):
     d = json.load(open(path)); ck = Check(PID, 'quick')
     c = d.get('case')
     if not isinstance(c, str):
-        print('replay holds no concrete case on the implementation:', json.dumps(d, indent=1)[:3000]); return 1
+        print('replay:', json.dumps(d, indent=1)[:3000])
+        if isinstance(c, dict) and c.get('harness') == 'harness/lg_mt.cpp':
+            kind = c.get('build', 'plain')
+            fl = {'plain': [], 'tsan': ['-fsanitize=thread'], 'asan': ['-fsanitize=address,undefined']}[kind]
+            exe, _ = ck.build_harness('lg_mt_' + kind, ['lg_mt.cpp'], flags=fl, san=False)
+            rc, so, se = sh([exe] + [str(x) for x in c['args']], timeout=300, env=dict(os.environ, TSAN_OPTIONS='halt_on_error=1:exitcode=66', ASAN_OPTIONS='detect_leaks=0:exitcode=99'))
+            print('rc', rc, so.strip()[:200]); print((se or '')[:3000])
+            return 0 if (rc == 0 and so.startswith('OK')) else 1
+        return 1
     mexe, _ = ck.build_modelrun(); iexe, err = ck.build_harness('lg', ['lg.cpp'], flags=['-DNDEBUG', '-ldl'])
     if not iexe:
         print('harness does not compile:', err[-800:]); return 1
